@@ -267,6 +267,7 @@ type InstanceResult struct {
 	keepScripts bool
 	sem         chan struct{}
 	Goroutines  int
+	AbortReasons map[string]int
 	Asserts     int
 	LockOps     int
 	wg          sync.WaitGroup
